@@ -10,6 +10,7 @@
 (*   firing_structure produced operands change the end structures    (C01) *)
 (*   den / structure  result does not denote / type like the input   (C01) *)
 (*   not_normal_form  result chain violates NormalChain              (C07) *)
+(*   less_reduced     more factors left than the documented scan     (C07) *)
 (*   drift_*          the code left the transcribed algorithm but no       *)
 (*                    property is violated (reported, exit 0)              *)
 (***************************************************************************)
@@ -35,12 +36,18 @@ FiringClauses(f) ==
   \cup (IF known /\ ~Applicable(f.rule, f.l, f.r) THEN Flag("drift_not_applicable") ELSE {})
   \cup (IF ~known THEN Flag("drift_unknown_rule") ELSE {})
 
+\* number of factors left in the chain (identities apart): the documented scan leaves NFactors(Reduce(term)); a
+\* result with more factors has left a documented pattern only partly rewritten (e.g. R @ R.T merged into a zero
+\* rotation instead of cancelling) even when no adjacent pair is reducible any more
+NFactors(t) == Len(SelectSeq(ChainOf(t), LAMBDA x : x.k # "id"))
+
 FinalClauses ==
   (IF Den(Tr.result) # Tr.den THEN Flag("den") ELSE {})
   \cup (IF InS(Tr.result) # InS(Tr.term) \/ OutS(Tr.result) # OutS(Tr.term) THEN Flag("structure") ELSE {})
   \cup (IF Den(Tr.term) # Tr.den THEN Flag("input_projection") ELSE {})
   \cup (IF ~NormalChain(ChainOf(Tr.result)) THEN Flag("not_normal_form") ELSE {})
   \cup (IF StripIds(Tr.result) # StripIds(Reduce(Tr.term)) THEN Flag("drift_result") ELSE {})
+  \cup (IF NFactors(Tr.result) > NFactors(Reduce(Tr.term)) THEN Flag("less_reduced") ELSE {})
 
 TraceInit == tid \in 1..Len(Traces) /\ l = 1 /\ bad = {}
 TraceNext ==
